@@ -10,8 +10,10 @@ VERIF = os.path.dirname(os.path.dirname(os.path.abspath(__file__)))
 REPO = os.environ.get('VERIF_REPO', '/repo')
 WORK = os.environ.get('VERIF_WORK', os.path.join(VERIF, '.work'))
 CONTRACTS = os.path.join(VERIF, 'contracts')
-EVIDENCE = os.path.join(VERIF, 'evidence')
-REPLAYS = os.path.join(VERIF, 'replays')
+# evidence / replays of runs against a scratch copy (VERIF_REPO set: mutation self-tests) never touch the committed ones
+_SCRATCH_RUN = os.environ.get('VERIF_REPO', '/repo') != '/repo'
+EVIDENCE = os.path.join(WORK, 'evidence-scratch') if _SCRATCH_RUN else os.path.join(VERIF, 'evidence')
+REPLAYS = os.path.join(WORK, 'replays-scratch') if _SCRATCH_RUN else os.path.join(VERIF, 'replays')
 KNOWN = os.path.join(VERIF, 'known_findings.json')
 
 KANI_REPO = os.path.join(WORK, 'kani', 'repo')
